@@ -374,3 +374,55 @@ Definition atomic_shape (fd : N) (tmp dst : path) (chunks : list data) : list op
 (** os.WriteFile *)
 Definition inplace_shape (fd : N) (dst : path) (chunks : list data) : list op :=
   Open fd dst fl_trunc :: map (Write fd) chunks ++ [Close fd].
+
+(** ** "The path exists at every instant" and the shapes that break it. *)
+
+(** One pass over the trace: once [dst] names a file it names one after every
+    later operation (evaluated on the recorded traces beside [trace_safe]; the
+    theorems show that [trace_safe] implies it and much more). *)
+Fixpoint dst_stays (dst : path) (s : fs) (t : list op) : bool :=
+  match t with
+  | [] => true
+  | o :: t' =>
+      (match aget (dir_cur s) dst, aget (dir_cur (step s o)) dst with
+       | Some _, None => false
+       | _, _ => true
+       end) && dst_stays dst (step s o) t'
+  end.
+
+(** Index of the first operation after which [dst] is gone (for reports). *)
+Fixpoint first_absent (dst : path) (s : fs) (t : list op) (k : N) : option N :=
+  match t with
+  | [] => None
+  | o :: t' =>
+      match aget (dir_cur s) dst, aget (dir_cur (step s o)) dst with
+      | Some _, None => Some k
+      | _, _ => first_absent dst (step s o) t' (k + 1)
+      end
+  end.
+
+(** What is read at [dst] after every prefix of the trace (no crash). *)
+Fixpoint live_states (s : fs) (t : list op) (dst : path) : list (option data) :=
+  live_view s dst ::
+  match t with
+  | [] => []
+  | o :: t' => live_states (step s o) t' dst
+  end.
+
+(** "Keep a backup first": rename dst away, then the write-to-temp shape. *)
+Definition backup_shape (fd : N) (bak tmp dst : path) (chunks : list data) : list op :=
+  Rename dst bak :: atomic_shape fd tmp dst chunks.
+
+(** The write-to-temp shape through a FIXED temporary name opened with
+    O_CREAT|O_TRUNC (no O_EXCL): fine for one save at a time. *)
+Definition fixed_tmp_shape (fd : N) (tmp dst : path) (chunks : list data) : list op :=
+  Open fd tmp fl_trunc :: map (Write fd) chunks ++ [Fsync fd; Close fd; Rename tmp dst].
+
+(** Every way of interleaving two traces (order within each is kept). *)
+Fixpoint interleavings (a : list op) : list op -> list (list op) :=
+  fix inner (b : list op) : list (list op) :=
+    match a, b with
+    | [], _ => [b]
+    | _, [] => [a]
+    | x :: a', y :: b' => map (cons x) (interleavings a' b) ++ map (cons y) (inner b')
+    end.
